@@ -158,6 +158,12 @@ def run_case(case, ctx):
                     continue
                 first_is_F = "vs fractional" in what or "list" in what
                 check_val(ctx, "value-mixed-dtype", ctx.call(_p.heat, a1, a2, sigma=sigma), F if first_is_F else Gh, Gh if first_is_F else F, sigma, what)
+            # float32 array (lattice values, exact in single precision) against a float64 array with values that
+            # single precision cannot hold, both orders
+            Gq = [[x / 3.0 + 0.1 + 1e-9 for x in p] for p in G]
+            F32 = np.array(F, dtype=np.float32).reshape(-1, 2)
+            check_val(ctx, "value-mixed-dtype", ctx.call(_p.heat, F32, farr(Gq), sigma=sigma), F, Gq, sigma, "float32 array vs float64 array")
+            check_val(ctx, "value-mixed-dtype", ctx.call(_p.heat, farr(Gq), F32, sigma=sigma), Gq, F, sigma, "float64 array vs float32 array")
             # integer-typed arrays: large values (squares beyond the integer range) and unsigned dtypes
             # (differences wrap around) must give the value of the equal float diagrams
             for dt, kk in ((np.int64, 4 * 10 ** 9), (np.int32, 50000), (np.int16, 200), (np.uint8, 60), (np.uint16, 1)):
